@@ -41,23 +41,28 @@ def e2e_case(rec):
     if env_set or len(set_keys) != 1:
         return None
     k = next(iter(set_keys))
+    # the format layer can be realised by --cram-compat on a Markdown document: combined output, CRLF kept
+    compat = []
     if sc(fmt, k) != "U":
-        return None
-    eff = highest([sc(cli, k), sc(tc, k), sc(doc, k), "U"])
+        if (k, sc(fmt, k)) in (("output_stream", "B"), ("keep_crlf", "A")):
+            compat = ["--cram-compat"]
+        else:
+            return None
+    eff = highest([sc(cli, k), sc(tc, k), sc(doc, k), sc(fmt, k)])
     if k == "output_stream":
         if sc(cli, k) == "A":
             return None          # the command line can only choose stdout or combined
         name = {"A": "stderr", "B": "combined"}
         fm = ["defaults:", f"  output_stream: {name[sc(doc, k)]}"] if sc(doc, k) != "U" else []
         inline = "{output_stream: %s}" % name[sc(tc, k)] if sc(tc, k) != "U" else ""
-        flags = ["--combine-output"] if sc(cli, k) == "B" else []
+        flags = (["--combine-output"] if sc(cli, k) == "B" else []) + compat
         exp = {"U": ["o"], "A": ["e"], "B": ["o", "e"]}[eff]
         return fm, inline, flags, "printf 'o\\n'; printf 'e\\n' >&2", exp
     if k == "keep_crlf":
         name = {"A": "true", "B": "false"}
         fm = ["defaults:", f"  keep_crlf: {name[sc(doc, k)]}"] if sc(doc, k) != "U" else []
         inline = "{keep_crlf: %s}" % name[sc(tc, k)] if sc(tc, k) != "U" else ""
-        flags = {"A": ["--keep-output-crlf"], "B": ["--no-keep-output-crlf"], "U": []}[sc(cli, k)]
+        flags = {"A": ["--keep-output-crlf"], "B": ["--no-keep-output-crlf"], "U": []}[sc(cli, k)] + compat
         exp = ["a\\r (escaped)"] if eff == "A" else ["a"]
         return fm, inline, flags, "printf 'a\\r\\n'", exp
     return None
